@@ -32,7 +32,7 @@ ASSUMPTIONS = ["per-target expectation = the library's own root merge of indepen
 REACH = [("yamlpath/merger/merger.py", "_insert_dict,_insert_list,_insert_set,_insert_scalar,_get_merge_target_nodes,merge_with,_replace_merge_target", "Merger._insert_* / _get_merge_target_nodes / merge_with"),
          ("yamlpath/merger/mergerconfig.py", "get_insertion_point", "MergerConfig.get_insertion_point")]
 SIZES = {"quick": 30000, "thorough": 800000}
-REQUIRED_COUNTERS = ["self_merging_rhs_cases", "created_keys_with_separator_characters", "create_under_several_parents_cases", "empty_lhs_cases", "rule_at_merge_point_cases", "target_sharing_checked", "merge_key_target_cases", "retyped_equal_rhs_cases", "cli_uncreatable_cases", "traversal_mergeat_cases", "existing_single", "existing_multiple", "created", "uncreatable"]
+REQUIRED_COUNTERS = ["merge_key_target_with_local_override", "self_merging_rhs_cases", "created_keys_with_separator_characters", "create_under_several_parents_cases", "empty_lhs_cases", "rule_at_merge_point_cases", "target_sharing_checked", "merge_key_target_cases", "retyped_equal_rhs_cases", "cli_uncreatable_cases", "traversal_mergeat_cases", "existing_single", "existing_multiple", "created", "uncreatable"]
 SAMPLE = [("deep", "all", "all", "unique"), ("deep", "unique", "deep", "unique"), ("right", "right", "right", "right"),
           ("left", "left", "left", "left"), ("deep", "right", "unique", "left"), ("right", "all", "deep", "unique")]
 
@@ -267,6 +267,13 @@ def merge_key_target_case(ctx, rng):
     combo = rng.choice(SAMPLE)
     case = {"lhs": ltext, "rhs": rtext, "mergeat": "/" + tgt, "policies": combo, "kind": "merge-key-target"}
     before = {k: E.image(v) for k, v in L.items() if k != tgt}
+    # what the target shows under the keys the right-hand document does not name (its own keys - some of them overriding an
+    # inherited key - and the keys it only inherits): under the deep Hash policy those keep their values
+    rkeys = set(dict.fromkeys(keys))
+    own_before = {k: E.image(v) for k, v in yp.own_items(L[tgt]) if k not in rkeys}
+    view_before = {k: E.image(L[tgt][k]) for k in L[tgt].keys() if k not in rkeys}
+    if any(k in inherited_all(L[tgt]) for k in own_before):
+        ctx.count("merge_key_target_with_local_override")
     ctx.evaluations += 1
     ctx.counters["merge_key_target_cases"] = ctx.counters.get("merge_key_target_cases", 0) + 1
     ctx.mark_nontrivial([ltext, rtext, tgt, combo])
@@ -283,6 +290,32 @@ def merge_key_target_case(ctx, rng):
             ctx.violation("differs/merge-key-target/outside-target", {"case": case, "summary": "%r changed: %r" % (
                 k, E.diff(img, E.image(m.data[k]))[:3] if k in m.data else "removed")})
             return
+    if combo[0] == "deep" and isinstance(m.data.get(tgt), dict):
+        now = m.data[tgt]
+        own_now = dict(yp.own_items(now))
+        for k, img in own_before.items():
+            if k not in own_now or E.image(own_now[k]) != img:
+                ctx.violation("differs/merge-key-target/own-key-not-named-by-rhs", {"case": case, "summary": "own key %r of the target was %r, now %s ; result %r" % (
+                    k, img, "gone from its own keys" if k not in own_now else E.image(own_now[k]), yp.dump(m.data)[:250])})
+                return
+        # (what the target SHOWS is read from the written document: the Merger deliberately hides inherited keys of the live
+        # Hash while it inserts into it - ruamel's insert() would otherwise turn them into own keys)
+        try:
+            now = yp.load(yp.dump(m.data))[tgt]
+        except yp.LoadError:
+            return
+        for k, img in view_before.items():
+            if k not in now or E.image(now[k]) != img:
+                ctx.violation("differs/merge-key-target/shown-value-not-named-by-rhs", {"case": case, "summary": "%r of the target read %r before, now %s" % (
+                    k, img, "absent" if k not in now else E.image(now[k]))})
+                return
+
+
+def inherited_all(m):
+    out = set()
+    for _pos, src in getattr(m, "merge", None) or []:
+        out |= set(src.keys())
+    return out
 
 
 def rule_at_merge_point_case(ctx, rng):
